@@ -67,20 +67,22 @@ pub fn run(v: &serde_json::Value, rep: &mut Report) -> Result<(), String> {
         let mut l: Vec<OrderId> = q.to_vec().iter().map(|o| o.id()).collect();
         let n = l.len(); l.dedup();
         if n != model.len() || l.len() != n || !model.iter().all(|m| l.contains(m)) { rep.violation("C19", "to_vec.each_once", format!("step={step}")); }
-        // assumed legs of C19 (Display / FromStr / Serialize / Deserialize run through str and serde, outside both verifiers):
-        // cross-checked on the real library - the rebuilt queue holds the same orders, field for field
-        if v.get("legs").and_then(|x| x.as_bool()).unwrap_or(true) {
-            let want: std::collections::HashMap<OrderId, pricelevel::OrderType<()>> = q.to_vec().iter().map(|a| (a.id(), **a)).collect();
-            let same = |t: &OrderQueue| { let got: std::collections::HashMap<OrderId, pricelevel::OrderType<()>> = t.to_vec().iter().map(|a| (a.id(), **a)).collect(); got == want && t.len() == q.len() };
-            match q.to_string().parse::<OrderQueue>() {
-                Ok(t) => if !same(&t) { rep.violation("C19", "roundtrip.text_form_same_orders", format!("step={step}: {} parses to different orders", q)); },
-                Err(e) => rep.violation("C19", "roundtrip.text_form_same_orders", format!("step={step}: {} does not parse: {e}", q)),
-            }
-            match serde_json::to_string(&q).map_err(|e| e.to_string()).and_then(|j| serde_json::from_str::<OrderQueue>(&j).map_err(|e| format!("{e} in {j}"))) {
-                Ok(t) => if !same(&t) { rep.violation("C19", "roundtrip.json_form_same_orders", format!("step={step}: JSON form deserializes to different orders")); },
-                Err(e) => rep.violation("C19", "roundtrip.json_form_same_orders", format!("step={step}: JSON round trip failed: {e}")),
-            }
-        }
+        if v.get("legs").and_then(|x| x.as_bool()).unwrap_or(true) { legs_only(&q, rep, step); }
     }
     Ok(())
+}
+
+/// assumed legs of C19 (Display / FromStr / Serialize / Deserialize run through str and serde, outside both verifiers):
+/// cross-checked on the real library - the rebuilt queue holds the same orders, field for field
+pub fn legs_only(q: &OrderQueue, rep: &mut Report, step: usize) {
+    let want: std::collections::HashMap<OrderId, pricelevel::OrderType<()>> = q.to_vec().iter().map(|a| (a.id(), **a)).collect();
+    let same = |t: &OrderQueue| { let got: std::collections::HashMap<OrderId, pricelevel::OrderType<()>> = t.to_vec().iter().map(|a| (a.id(), **a)).collect(); got == want && t.len() == q.len() };
+    match q.to_string().parse::<OrderQueue>() {
+        Ok(t) => if !same(&t) { rep.violation("C19", "roundtrip.text_form_same_orders", format!("step={step}: {} parses to different orders", q)); },
+        Err(e) => rep.violation("C19", "roundtrip.text_form_same_orders", format!("step={step}: {} does not parse: {e}", q)),
+    }
+    match serde_json::to_string(&q).map_err(|e| e.to_string()).and_then(|j| serde_json::from_str::<OrderQueue>(&j).map_err(|e| format!("{e} in {j}"))) {
+        Ok(t) => if !same(&t) { rep.violation("C19", "roundtrip.json_form_same_orders", format!("step={step}: JSON form deserializes to different orders")); },
+        Err(e) => rep.violation("C19", "roundtrip.json_form_same_orders", format!("step={step}: JSON round trip failed: {e}")),
+    }
 }
